@@ -102,7 +102,7 @@ def validator_lane(ctx, thorough):
                   cases.append((shape, kind, nf, yform, dlen, ty, ts, 'none'))
   # indicators through a preprocessor (array-like / raising callable)
   for shape in [(3,), (0,), (3, 2), (3, 3), (3, 4), (2, 2, 2)]:
-    for mode in ('array', 'raising'):
+    for mode in ('array', 'raising', 'array_nonfinite', 'callable_nonfinite'):
       for yform in ('YNone', 'YPm1', 'YOtherNum'):
         for ty in ('classic', 'tuples'):
           for ts in ([None] if ty == 'classic' else [None, 2, 3]):
@@ -127,6 +127,24 @@ def validator_lane(ctx, thorough):
       pre = ArrayIndexer(Xpre)
       fshape = tuple(shape) + (4,)
       gpre = "(Some (Ok %s))" % gdesc(fshape, 'KFloat', False)
+    elif mode in ('array_nonfinite', 'callable_nonfinite'):
+      # the points the preprocessor forms are not finite (a callable returning them, or an array holding them)
+      if int(np.prod(shape)) == 0:
+        continue
+      from metric_learn._util import ArrayIndexer
+      Xbad = Xpre.copy()
+      Xbad[int(arr.ravel()[pos % arr.size]), pos] = what
+      pre = (lambda idx, Xbad=Xbad: Xbad[np.asarray(idx)])
+      if mode == 'array_nonfinite':
+        # an array preprocessor that is written to after it was wrapped
+        store = Xpre.copy()
+        pre = ArrayIndexer(store)
+        holder = [v for v in vars(pre).values() if isinstance(v, np.ndarray) and v.shape == store.shape]
+        if not holder:
+          continue
+        holder[0][...] = Xbad
+      fshape = tuple(shape) + (4,)
+      gpre = "(Some (Ok %s))" % gdesc(fshape, 'KFloat', True)
     else:
       pre, gpre = raising, "(Some (Raise PreprocessorError))"
     oc, r, ex = outcome(lambda: check_input(arr, y, preprocessor=pre, type_of_inputs=ty, tuple_size=ts))
@@ -257,6 +275,71 @@ def estimator_lane(ctx, thorough):
         elif (not wf) and oc != 1:
           ctx.fail_input('outcome_class', '%s: %s raises %s instead of ValueError' % (mname, meth, type(ex).__name__), inp,
                          observed=str(ex)[:150])
+    # indices through a preprocessor (callable, or an array written to after fit) that forms non-finite points
+    n = len(data['X'])
+    for meth in METHODS:
+      if meth in ('predict', 'decision_function', 'score', 'calibrate_threshold') and not ts:
+        continue
+      if meth == 'calibrate_threshold' and ts != 2:
+        continue
+      for pmode in ('callable', 'array_written_after_fit'):
+        what = [np.nan, np.inf, -np.inf][int(rng.integers(0, 3))]
+        Xbad = np.array(data['X'], dtype=float)
+        bad_row = int(rng.integers(0, n))
+        Xbad[bad_row, int(rng.integers(0, d))] = what
+        t_arg = (0 if meth == 'transform' else 2 if meth in ('pair_distance', 'pair_score', 'score_pairs') else ts)
+        if meth == 'fit':
+          kind = fits.KIND[name]
+          t_arg = {'pairs': 2, 'triplets': 3, 'quads': 4}.get(kind, 0)
+        m = 6
+        idx = rng.integers(0, n, size=(m,) if t_arg == 0 else (m, t_arg))
+        idx.ravel()[int(rng.integers(0, idx.size))] = bad_row
+        ypm = np.where(np.arange(m) % 2 == 0, 1, -1)
+        try:
+          with warnings.catch_warnings():
+            warnings.simplefilter('ignore')
+            if meth == 'fit':
+              if pmode != 'callable':
+                continue
+              kwb = dict(kw)
+              kwb['preprocessor'] = (lambda ii, Xbad=Xbad: Xbad[np.asarray(ii)])
+              kind = fits.KIND[name]
+              if kind in ('unsup', 'class', 'reg', 'chunks'):
+                args = fits.fit_args(name, data)
+                ii = np.arange(n)
+                call = lambda: fits.make_estimator(name, kwb).fit(ii, *args[1:])
+              elif kind == 'pairs':
+                call = lambda: fits.make_estimator(name, kwb).fit(idx, ypm)
+              else:
+                call = lambda: fits.make_estimator(name, kwb).fit(idx)
+            else:
+              kwb = dict(kw)
+              if pmode == 'callable':
+                kwb['preprocessor'] = (lambda ii, Xbad=Xbad: Xbad[np.asarray(ii)])
+                good = dict(data)
+                eb = fits.make_estimator(name, kwb).fit(*fits.fit_args(name, data))
+              else:
+                store = np.array(data['X'], dtype=float)
+                kwb['preprocessor'] = store
+                eb = fits.make_estimator(name, kwb).fit(*fits.fit_args(name, data))
+                store[:] = Xbad
+              if meth == 'score':
+                call = (lambda: eb.score(idx, ypm)) if ts == 2 else (lambda: eb.score(idx))
+              elif meth == 'calibrate_threshold':
+                call = lambda: eb.calibrate_threshold(idx, ypm)
+              else:
+                call = lambda: getattr(eb, meth)(idx)
+        except Exception:
+          ctx.count('estimator_fit_failed', 1)
+          continue
+        oc, r, ex = outcome(call)
+        ctx.count('estimator_methods', 1)
+        ctx.seen((name, meth, 'nonfinite_through_preprocessor', pmode), True)
+        if oc != 1:
+          ctx.fail_input('outcome_class', 'non-finite points formed by a preprocessor (%s): %s %s' % (
+                             pmode, meth, 'returned' if oc == 0 else 'raises ' + type(ex).__name__),
+                         dict(estimator=name, method=meth, preprocessor=pmode, value=str(what), indices=np.asarray(idx).tolist()),
+                         observed=None if ex is None else str(ex)[:150])
     # labels
     if fits.KIND[name] == 'pairs':
       P, y = fits.fit_args(name, data)
@@ -267,6 +350,26 @@ def estimator_lane(ctx, thorough):
         if oc != 1:
           ctx.fail_input('outcome_class', 'pairs learner fit with %s: %s' % (lname, 'returned' if oc == 0 else 'raises ' + type(ex).__name__),
                          dict(estimator=name, labels=lname), observed=None if ex is None else str(ex)[:150])
+      # calibrate_threshold validates its labels whatever the strategy
+      for strat, skw in (('accuracy', {}), ('f_beta', dict(beta=float([0.5, 1., 2.][int(rng.integers(0, 3))]))),
+                         ('max_tpr', dict(min_rate=0.5)), ('max_tnr', dict(min_rate=0.5))):
+        for lname, yy in (('labels_0_1', np.where(y == 1, 1, 0)), ('labels_1_2', np.where(y == 1, 2, 1)),
+                          ('labels_-2_2', 2 * y), ('labels_0_2', np.where(y == 1, 2, 0)),
+                          ('labels_nan', np.where(np.arange(len(y)) == 1, np.nan, y.astype(float))),
+                          ('labels_str', np.array(['a', 'b'])[(y == 1).astype(int)]),
+                          ('labels_short', y[:-1]), ('labels_long', np.r_[y, 1]), ('well_formed', y)):
+          oc, r, ex = outcome(lambda: est.calibrate_threshold(P, yy, strategy=strat, **skw))
+          ctx.count('estimator_methods', 1)
+          ctx.seen((name, 'calibrate_threshold', strat, lname), True)
+          if lname == 'well_formed':
+            if oc != 0:
+              ctx.fail_input('outcome_class', 'calibrate_threshold(strategy=%s) rejects well-formed labels' % strat,
+                             dict(estimator=name, strategy=strat), observed=None if ex is None else str(ex)[:150])
+          elif oc != 1:
+            ctx.fail_input('outcome_class', 'calibrate_threshold(strategy=%s) with %s: %s' % (
+                               strat, lname, 'returned' if oc == 0 else 'raises ' + type(ex).__name__),
+                           dict(estimator=name, strategy=strat, labels=lname, y=[str(v) for v in yy[:6]]),
+                           observed=None if ex is None else str(ex)[:150])
     if fits.KIND[name] in ('class', 'reg', 'chunks'):
       X, y = fits.fit_args(name, data)
       for lname, yy in (('labels_short', y[:-1]), ('labels_long', np.r_[y, y[:1]])):
